@@ -1,6 +1,6 @@
 """C07 — a restarted node rebuilds exactly what storage holds.  DESIGN §5 C07."""
 from analysis import *  # noqa
-from facts import strip_generics, op_local, op_const, const_int, last_seg, ty_head
+from facts import strip_generics, op_local, op_const, const_int, last_seg, ty_head, ty_args
 from engine import site
 import c02
 import c17
@@ -84,6 +84,25 @@ def check_R1(ctx, facts):
                 sort_ok = True   # whole-tuple sort: (key, ts, flag) — accepted only if ts-major; conservative: flag it
                 sort_ok = False
                 why = 'metadata is sorted with %s on the whole row (key-major), not by timestamp' % meth
+    # the rows are gathered in a collection that keeps every row
+    coll = [(b, t) for b, t in calls if cname(t) == 'core::iter::traits::iterator::Iterator::collect' and im_aw is not None
+            and im_aw in flow.backward([op_local(t['args'][0])])]
+    for b, t in coll:
+        cty = body.local_ty(t['dest']['l'])
+        head = ty_head(cty)
+        seq = head in ('alloc::vec::Vec', 'smallvec::SmallVec', 'alloc::collections::vec_deque::VecDeque')
+        keyed = head in ('alloc::collections::btree::map::BTreeMap', 'std::collections::hash::map::HashMap',
+                         'alloc::collections::btree::set::BTreeSet', 'std::collections::hash::set::HashSet')
+        kargs = ty_args(cty) if keyed else []
+        key_has_id = bool(kargs) and ('u64' in kargs[0] and kargs[0].strip() != 'datacake_crdt::timestamp::HLCTimestamp')
+        good = seq or (keyed and key_has_id)
+        ctx.ob('C07.R1', 'rows-not-collapsed', good, site(body, t['cs']),
+               'stored rows are gathered in %s: every row is kept' % head if good else
+               'stored rows are gathered in %s: rows that share the collection key collapse into one (a bulk write stamps all its documents '
+               'with one timestamp), so documents storage holds are missing from the rebuilt set' % cty)
+        if keyed and kargs and kargs[0].strip().startswith(('datacake_crdt::timestamp::HLCTimestamp', '(datacake_crdt::timestamp::HLCTimestamp')) and head.startswith('alloc::collections::btree'):
+            sort_ok = True
+            why = ''
     ctx.ob('C07.R1', 'sorted-by-timestamp', sort_ok, site(body, sorts[0][1]['cs'] if sorts else None),
            'stored rows are sorted by timestamp before the replay' if sort_ok else why)
     # replay: tombstone flag true -> delete, false -> insert, every iteration one of the two
@@ -93,12 +112,11 @@ def check_R1(ctx, facts):
     dels = [b for b, t in calls if cname(t) in (OS + 'delete', OS + 'delete_with_source')]
     inss = [b for b, t in calls if cname(t) in (OS + 'insert', OS + 'insert_with_source')]
     flag_locals = set()
-    for _b, _j, s in body.assigns():
-        if s['rv']['k'] == 'use':
-            pl = op_place(s['rv']['op'])
-            if pl and inner[1]['dest']['l'] in flow.backward([pl['l']]) and pl['p'] and isinstance(pl['p'][-1], dict) and pl['p'][-1].get('f') == 2 \
-                    and body.local_ty(s['lhs']['l']) == 'bool':
-                flag_locals.add(s['lhs']['l'])
+    item_fw = flow.forward([inner[1]['dest']['l']], stop=[0])
+    for l in item_fw:
+        if body.local_ty(l) == 'bool' and any(s['lhs']['l'] == l and s['rv']['k'] == 'use' and op_place(s['rv']['op']) and op_place(s['rv']['op'])['p']
+                                               for _b, _j, s in body.assigns()):
+            flag_locals.add(l)
     pol = False
     for fl in flag_locals:
         import c18
